@@ -20,6 +20,32 @@ def _walk_terms(t):
                 yield from _walk_terms(x)
 
 
+def _constructor_only(repo):
+    """Qualified names of the Process methods that run only during
+    construction: __init__, _init and every private method all of whose call
+    sites are inside such a method (an extracted part of the constructor)."""
+    s = {"Process.__init__", "Process._init"}
+    meths = {f.name: f for f in repo.all_funcs("psutil") if f.cls == "Process" and f.parent is None}
+    changed = True
+    while changed:
+        changed = False
+        for name, f in meths.items():
+            q = f"Process.{name}"
+            if q in s or not name.startswith("_") or name.startswith("__"):
+                continue
+            sites = [g for g in repo.all_funcs("psutil")
+                     for c in calls_in(g.node)
+                     if isinstance(c.func, ast.Attribute) and c.func.attr == name
+                     and dotted(c.func.value) == "self"]
+            other = any(isinstance(n, ast.Attribute) and n.attr == name
+                        and not isinstance(n.ctx, ast.Store)
+                        for m in repo.modules.values() for n in ast.walk(m.tree)) and not sites
+            if sites and not other and all(f"{g.cls}.{g.name}" in s for g in sites):
+                s.add(q)
+                changed = True
+    return s
+
+
 def _writes(repo, attr, classes=("Process", "Popen")):
     out = []
     for fi in repo.all_funcs("psutil"):
@@ -113,8 +139,9 @@ def run(ctx):
     ctx.rule("C02.R2", "identity is immutable: _ident is written only in _init; "
              "_create_time only where it is still None (create_time) or during "
              "construction (_get_ident)", floor=3)
+    ctor_only = _constructor_only(repo)
     wr = _writes(repo, "self._ident")
-    bad = [f"{fi.qual}: {norm_stmt(st)}" for fi, st in wr if fi.qual != "Process._init"]
+    bad = [f"{fi.qual}: {norm_stmt(st)}" for fi, st in wr if fi.qual not in ctor_only]
     if bad or not wr:
         ctx.fail("C02.R2", "_ident-writers", "psutil/__init__.py", 0, "Process",
                  "the identity tuple is re-bound after construction: " + "; ".join(bad))
@@ -123,14 +150,14 @@ def run(ctx):
     gi_callers = [fi.qual for fi in repo.all_funcs("psutil")
                   if any(isinstance(c.func, ast.Attribute) and c.func.attr == "_get_ident"
                          for c in calls_in(fi.node))]
-    if set(gi_callers) <= {"Process._init"} and gi_callers:
+    if set(gi_callers) <= ctor_only and gi_callers:
         ctx.ok("C02.R2", "_get_ident-callers", sample=gi_callers)
     else:
         ctx.fail("C02.R2", "_get_ident-callers", "psutil/__init__.py", 0, "Process",
                  f"_get_ident is evaluated outside construction: {gi_callers}")
     for fi, st in _writes(repo, "self._create_time"):
         key = f"_create_time:{fi.qual}:{norm_stmt(st)}"
-        if fi.qual in ("Process._init", "Process._get_ident"):
+        if fi.qual in ctor_only | {"Process._get_ident"}:
             ctx.ok("C02.R2", key, nontrivial=False)
             continue
         cfg = A.cfg(fi)
@@ -324,6 +351,13 @@ def run(ctx):
                                  for n in cfgw.owners(c)]
                         if waits and all(any(cfgw.dominates(w, n) for w in waits)
                                          for n in cfgw.nodes_of(st)):
+                            inh = True
+                    # ... and so is a positive identity verdict: the PID belongs to
+                    # another process now, so this object's process has ended
+                    if not inh and dotted(t.value) == "self":
+                        cfgr = A.cfg(fi)
+                        if all(("truthy", "self._pid_reused", True) in facts(cfgr, n)
+                               for n in cfgr.nodes_of(st)):
                             inh = True
                     if inh and dotted(t.value) == "self":
                         ctx.ok("C02.R4", key, sample=f"{fi.qual}: {norm_stmt(st)} in "
